@@ -83,6 +83,40 @@ pub static ALLOC_BASE_LIMIT: AtomicUsize = AtomicUsize::new(usize::MAX);
 pub static NET_BYTES_DELIVERED: AtomicUsize = AtomicUsize::new(0);
 pub static MAX_SINGLE_ALLOC: AtomicUsize = AtomicUsize::new(0);
 pub static OVERSIZE_ALLOCS: AtomicUsize = AtomicUsize::new(0);
+/// Bytes currently allocated (all of the process: driver, mock, harness).
+pub static LIVE_BYTES: AtomicUsize = AtomicUsize::new(0);
+static LIVE_REPORTED: std::sync::atomic::AtomicBool = std::sync::atomic::AtomicBool::new(false);
+
+/// Many allocations that are each below the single-allocation threshold can still add up to
+/// memory out of proportion to the input: the live total is bounded by four times the base
+/// limit plus 64 bytes per byte delivered.
+#[inline]
+fn observe_live(delta_up: usize) {
+    let live = LIVE_BYTES.fetch_add(delta_up, Ordering::Relaxed) + delta_up;
+    let base = ALLOC_BASE_LIMIT.load(Ordering::Relaxed);
+    if base == usize::MAX {
+        return;
+    }
+    let limit = base.saturating_mul(4).saturating_add(NET_BYTES_DELIVERED.load(Ordering::Relaxed).saturating_mul(64));
+    if live > limit && !LIVE_REPORTED.swap(true, Ordering::Relaxed) {
+        OVERSIZE_ALLOCS.fetch_add(1, Ordering::Relaxed);
+        let fd = REPORT_FD.load(Ordering::Relaxed);
+        if fd >= 0 {
+            let mut line = [0u8; 112];
+            let prefix = b"{\"oversize_alloc\":";
+            line[..prefix.len()].copy_from_slice(prefix);
+            let mut pos = write_num(&mut line, prefix.len(), live);
+            let mid = b",\"limit\":";
+            line[pos..pos + mid.len()].copy_from_slice(mid);
+            pos = write_num(&mut line, pos + mid.len(), limit);
+            let tail = b",\"live\":1}\n";
+            line[pos..pos + tail.len()].copy_from_slice(tail);
+            unsafe {
+                libc::write(fd, line.as_ptr() as *const libc::c_void, pos + tail.len());
+            }
+        }
+    }
+}
 
 fn write_num(out: &mut [u8], mut pos: usize, mut v: usize) -> usize {
     let mut tmp = [0u8; 24];
@@ -138,17 +172,25 @@ fn observe(size: usize) {
 unsafe impl GlobalAlloc for CountingAlloc {
     unsafe fn alloc(&self, layout: Layout) -> *mut u8 {
         observe(layout.size());
+        observe_live(layout.size());
         unsafe { System.alloc(layout) }
     }
     unsafe fn dealloc(&self, ptr: *mut u8, layout: Layout) {
+        LIVE_BYTES.fetch_sub(layout.size(), Ordering::Relaxed);
         unsafe { System.dealloc(ptr, layout) }
     }
     unsafe fn alloc_zeroed(&self, layout: Layout) -> *mut u8 {
         observe(layout.size());
+        observe_live(layout.size());
         unsafe { System.alloc_zeroed(layout) }
     }
     unsafe fn realloc(&self, ptr: *mut u8, layout: Layout, new_size: usize) -> *mut u8 {
         observe(new_size);
+        if new_size >= layout.size() {
+            observe_live(new_size - layout.size());
+        } else {
+            LIVE_BYTES.fetch_sub(layout.size() - new_size, Ordering::Relaxed);
+        }
         unsafe { System.realloc(ptr, layout, new_size) }
     }
 }
